@@ -24,7 +24,8 @@
 
    codes: 0 agree; 1 CWs differs from the model; 3 a character lost / duplicated /
    reordered / invented in a paragraph; 4 paragraphs out of order or split;
-   5 units not conserved; 6 text boxes and DrawText calls do not match;
+   5 units not conserved; 8 a collapsible space vanished inside a line (everything else
+   matches); 9 a preserved line feed / <br> did not break the line (everything else matches); 6 text boxes and DrawText calls do not match;
    7 an unproved statement (pw_idempotent_statement / whitespace_spec_preline_statement) fails. *)
 From Verif Require Export Css.Whitespace Css.WhitespaceSpec Layout.TextDraw.
 From Coq Require Import List NArith Bool Arith.
@@ -75,6 +76,10 @@ Definition next_is_boundary (o : list otok) : bool :=
   match o with [] => true | ONL :: _ => true | OC _ :: _ => false end.
 
 (* at_edge: the previous observed token was a line boundary (or the start) *)
+Section Match.
+(* relaxations used only to name a deviation precisely (codes 8 / 9):
+   rs: a collapsible space may be dropped inside a line; rb: a preserved line feed may fail to break the line *)
+Variables rs rb : bool.
 Fixpoint match_para (fuel : nat) (at_edge : bool) (e : list (N * ekind)) (o : list otok) : bool :=
   match fuel with
   | 0 => false
@@ -87,23 +92,41 @@ Fixpoint match_para (fuel : nat) (at_edge : bool) (e : list (N * ekind)) (o : li
       | (c, EChar) :: _, ONL :: o' => match_para f true e o'
       | (c, EChar) :: _, [] => false
       | (_, ESpace) :: e', OC c' :: o' =>
-          (* the space is there, or it was dropped at the edge of a line (the observed
-             space may then be a preserved one that follows) *)
-          (N.eqb c' SP && match_para f false e' o') || (at_edge && match_para f at_edge e' o)
+          if N.eqb c' SP then
+            (* at a line start a collapsible space followed by a preserved one: the
+               collapsible one was dropped (deterministic: no backtracking) *)
+            match at_edge, e' with
+            | true, (c2, EChar) :: _ => if N.eqb c2 SP then match_para f at_edge e' o
+                                        else match_para f false e' o'
+            | _, _ => match_para f false e' o'
+            end
+          else (at_edge || rs) && match_para f at_edge e' o
       | (_, ESpace) :: e', ONL :: o' =>
-          (* dropped at the end of this line, or it is (or is dropped) after the boundary *)
-          match_para f true e' o || match_para f true e o'
+          (* before a forced break / the end the space sits at this line's end: dropped
+             here; otherwise decide after the boundary *)
+          match e' with
+          | [] | (_, EBreak) :: _ => match_para f true e' o
+          | _ => match_para f true e o'
+          end
       | (_, ESpace) :: e', [] => match_para f true e' []
       | (_, EBreak) :: e', ONL :: o' => match_para f true e' o'
       | (_, EBreak) :: e', [] => match_para f true e' []
-      | (_, EBreak) :: _, OC _ :: _ => false
+      | (_, EBreak) :: e', OC _ :: _ => rb && match_para f at_edge e' o
       end
   end.
 
-Definition check_para (src : inl) (lines : list (list N)) : bool :=
+End Match.
+
+(* 0 = the lines carry the text; 8 = only if a collapsible space may vanish inside a line;
+   9 = only if a preserved line feed / <br> may fail to break the line; 3 = otherwise *)
+Definition check_para (src : inl) (lines : list (list N)) : N :=
   let e := expected src in
   let o := observed lines in
-  match_para (S (length e + length o)) true e o.
+  let fuel := S (length e + length o) in
+  if match_para false false fuel true e o then 0%N
+  else if match_para true false fuel true e o then 8%N
+  else if match_para false true fuel true e o then 9%N
+  else 3%N.
 
 (* ---------------------------------------------------------------- order *)
 
@@ -157,7 +180,7 @@ Definition check (c : case) : N :=
                               | _ => true
                               end) (texts src)
         then 0%N else 7%N
-  | CPara src lines => if check_para src lines then 0%N else 3%N
+  | CPara src lines => check_para src lines
   | COrder n ids => if order_ok (N.to_nat n) 0 (map N.to_nat ids) then 0%N else 4%N
   | CUnits n ids =>
       if (fix eq (a b : list nat) := match a, b with
